@@ -14,12 +14,16 @@ import PdfModel.Core.Out
   the `while let Some(p) = iter.next()` interpreter of
      the /W array in `Font::widths` (CID fonts)             `interp`, `setRun`, `setRange`
   `Font::widths` for Type1 / TrueType (`TFont`)             `simpleWidths`
+  `FontData` as far as `Font::widths` looks at it,
+     the dispatch on the subtype in `Font::widths`           `FontM`, `widthsOf`
   `MAX_CID`                                                 `maxCid`
 
   The model describes the code *after* the two `fix:` commits for defect D33 (font part):
     * `c1 + array.len() - 1` underflowed for `0 []`  → now `(c1 + array.len()).saturating_sub(1)`;
     * `c1 ..= (c2 as usize)` looped ~2^64 times for a negative `c2` and 2^31 times for a huge one
       → `c2` now goes through `as_usize()?` and codes above `MAX_CID = 0xFFFF` are refused.
+  and after `fix: simple-font widths outside FirstChar..LastChar are the descriptor's /MissingWidth, not 0`
+  (the table of a Type1 / TrueType font had the constant default 0.0).
   Width values are opaque (`α`): `as_number` turns `Integer n` into `n as f32` and leaves `Number f`;
   the harness sends the resulting f32 bit pattern with every numeric element.
   `Widths::set` ends with `debug_assert_eq!(self.get(cid), width)`: by `get_set_same` (Props/C19) it can only
@@ -133,8 +137,35 @@ def interp (w : Widths α) : List (WP α) → Out (Widths α)
 def cidWidths (dw : α) (wArr : List (WP α)) : Out (Widths α) := interp (Widths.new dw) wArr
 
 /-- `Font::widths` for Type1 / TrueType: `first_char: Some(first)` (an `i32`, cast with `as usize`),
-    `widths` or the empty vector, default `0.0` (`zero`) -/
+    `widths` or the empty vector, default `zero` (the descriptor's /MissingWidth, `0.0` without a descriptor) -/
 def simpleWidths (zero : α) (first : Int) (widths : Option (List α)) : Widths α :=
   ⟨widths.getD [], zero, if first < 0 then (18446744073709551616 - first.natAbs) else first.toNat⟩
+
+/-- `FontData`, the part `Font::widths` dispatches on. The seven subtypes of `FontType`: Type0 → `type0`,
+    Type1 and TrueType → `simple` (`TFont`), CIDFontType0 and CIDFontType2 → `cid`, MMType1 and Type3 →
+    `other` (`FontData::Other`: the library keeps the raw dictionary). -/
+inductive FontM (α : Type) where
+  /-- `Type0Font.descendant_fonts` (loading keeps at most the first, `43323ff`) -/
+  | type0 (descendants : List (FontM α))
+  /-- `TFont { first_char, widths, font_descriptor }`; `missing`: the descriptor's `missing_width` (its own
+      default is 0), `none` = no descriptor -/
+  | simple (firstChar : Option Int) (widths : Option (List α)) (missing : Option α)
+  /-- `CIDFont { default_width, widths }` -/
+  | cid (dw : α) (w : List (WP α))
+  | other
+
+/-- `Font::widths(&self, resolve) -> Result<Option<Widths>>` (`zero` = `0.0`) -/
+def widthsOf (zero : α) : FontM α → Out (Option (Widths α))
+  | .type0 [] => .ok none                                  -- `descendant_fonts.get(0)` is `None`
+  | .type0 (d :: _) => widthsOf zero d
+  | .simple (some first) ws missing => .ok (some (simpleWidths (missing.getD zero) first ws))
+  | .simple none _ _ => .ok none
+  | .cid dw w =>
+    match cidWidths dw w with
+    | .ok t => .ok (some t)
+    | .err => .err
+    | .panic => .panic
+    | .oof => .oof
+  | .other => .ok none
 
 end Widths
